@@ -92,6 +92,7 @@ def plan(tier, seed):
             for an, av in angle_sets.items():
                 if (shape == (2,) and an in ('s', 'v2', 'v2b')) or (shape == (2, 3) and an in ('s', 'c21', 'm23')):
                     closed.append({'kind': 'rot', 'stokes': kind, 'shape': list(shape), 'angles': av})
+    closed.append({'kind': 'scalar_sequence'})
     closed.append({'kind': 'identity', 'space': 'a'})
     closed.append({'kind': 'identity', 'space': 'tree'})
     for shape in ((3,), (2, 3), (2, 1, 3)):
@@ -180,8 +181,37 @@ def build_closed(case):
     raise KeyError(k)
 
 
+def check_scalar_sequence(case, violations):
+    """Many scalar operators created, inverted and dropped in one process: every inverse must be 1/value whatever was
+    created or discarded before (no dependence on earlier objects)."""
+    import gc
+
+    import numpy as np
+
+    jax, jnp, D = _ctx()
+    from furax._base.core import HomothetyOperator
+
+    a = jax.ShapeDtypeStruct((2,), D)
+    x = jnp.asarray([3.0, -5.0], D)
+    vals = [2.0, -0.5, 4.0, 8.0, -1.0, 0.25, 16.0, -3.0]
+    for sweep in range(6):
+        for v in vals:
+            H = HomothetyOperator(jnp.asarray(v, D), a)
+            y = np.asarray(H.I(H(x)))            # the inverse is a temporary: dropped at once
+            z = np.asarray(H.I.mv(x))
+            m = np.asarray(H.I.as_matrix())
+            hh = H.I.I
+            if not np.allclose(y, np.asarray(x), rtol=1e-5) or not np.allclose(z, np.asarray(x) / v, rtol=1e-5) or not np.allclose(m, np.eye(2) / v, rtol=1e-5) or not np.allclose(np.asarray(hh.mv(x)), v * np.asarray(x), rtol=1e-5):
+                violations.append({'kind': 'scalar-inverse-depends-on-history', 'case': case, 'detail': f'sweep {sweep}, value {v}: H.I(H(x)) = {y}, H.I(x) = {z}, expected {np.asarray(x) / v}'})
+                return
+        gc.collect()
+
+
 def check_closed(case, violations):
     import numpy as np
+
+    if case['kind'] == 'scalar_sequence':
+        return check_scalar_sequence(case, violations)
 
     from furax._base.core import InverseOperator
     from mc import probe as P
@@ -240,6 +270,13 @@ def check_closed(case, violations):
         if not P.close(Mi @ M, np.eye(n), tol) or not P.close(M @ Mi, np.eye(n), tol):
             violations.append({'kind': 'inverse-does-not-invert', 'case': case,
                                'detail': f'A.I A deviates from I by {P.maxdiff(Mi @ M, np.eye(n)):.4g}, A A.I by {P.maxdiff(M @ Mi, np.eye(n)):.4g}; A={P.mat_summary(M, 36)} A.I={P.mat_summary(Mi, 36)}'})
+    try:
+        Ai = np.asarray(P.lib('inverse.as_matrix', inv.as_matrix))
+        Ai = Ai.astype(np.complex128 if np.iscomplexobj(Ai) else np.float64)
+        if Ai.shape != Mi.shape or not (np.allclose(Ai, Mi, rtol=1e-12 if f64 else 2e-5, atol=1e-30) if singular or case['kind'] in ('diag', 'diag_tree', 'scalar') else P.close(Ai, Mi, tol)):
+            violations.append({'kind': 'as_matrix-of-inverse', 'case': case, 'detail': f'A.I.as_matrix() = {P.mat_summary(Ai, 36)} but A.I acts as {P.mat_summary(Mi, 36)}'})
+    except P.LibError as e:
+        violations.append({'kind': 'library-raises', 'case': case, 'detail': f'{e}\n{e.tb}'})
     if not P.close(Mii, M, tol):
         violations.append({'kind': 'double-inverse', 'case': case, 'detail': f'A.I.I differs from A by {P.maxdiff(Mii, M):.4g}'})
     if not P.same_struct(inv.in_structure(), op.out_structure()) or not P.same_struct(inv.out_structure(), op.in_structure()):
